@@ -287,10 +287,10 @@ func loadKF() {
 		}
 		fd := Finding{Kind: strings.TrimSpace(kind), Text: strings.TrimSpace(rest)}
 		for _, tok := range strings.Fields(rest) {
-			if v, ok := strings.CutPrefix(tok, "property="); ok {
+			if v, ok := strings.CutPrefix(tok, "property="); ok && fd.Property == "" {
 				fd.Property = v
 			}
-			if v, ok := strings.CutPrefix(tok, "id="); ok {
+			if v, ok := strings.CutPrefix(tok, "id="); ok && fd.ID == "" {
 				fd.ID = v
 			}
 		}
